@@ -141,6 +141,8 @@ class PathState:
         self.solver = z3.Solver()
         self.solver.set('timeout', INCREMENTAL_TIMEOUT_MS)
         self._incremental_lost = 0 # number of `unknown` answers of the incremental solver on this path
+        self.established = {}      # ids of terms that are conjuncts of the (unscoped) path condition
+        self._not_established = {} # term id -> len(pc) when it was last found not to be entailed
         self.len_solver = z3.Solver()   # integers and string lengths only (abstraction of pc): boundary questions
         self.len_solver.set('timeout', 2000)
         self.pc = []               # permanent conjuncts (z3 terms)
@@ -207,11 +209,28 @@ class PathState:
         # (string) formulas is where solvers get lost; dropping facts there only over-approximates
         # the set of explored paths, the obligations are always proved from the full `pc`.
         for c in _conjuncts(t):
+            self.established[c.get_id()] = c
             if not _has_quantifier(c):
                 self.solver.add(c)
                 la = length_abstraction(c)
                 if la is not None:
                     self.len_solver.add(la)
+
+    def is_established(self, t):
+        """t (the condition of a merge scope that has been left) is known to hold on this path: it is a
+        conjunct of the path condition, or entailed by it (checked once the path condition has grown)."""
+        i = t.get_id()
+        if i in self.established:
+            return True
+        if any(x.get_id() == i for x in self.scopes):
+            return True
+        if self._not_established.get(i) == len(self.pc):
+            return False
+        if not _has_quantifier(t) and self.must_hold(t):
+            self.established[i] = t
+            return True
+        self._not_established[i] = len(self.pc)
+        return False
 
     def reset_pc(self, keep):
         """Replace the path condition by a subset of its conjuncts (forgetting facts is sound: obligations
